@@ -582,3 +582,8 @@ contract('C12.runtime.more', [AN + 'rms_vs_field.py:RmsSpotSizeVsField.__init__'
                               AN + 'pupil_aberration.py:PupilAberration._generate_data', 'optiland/optimization/operand/ray.py:RayOperand.x_intercept',
                               'optiland/optimization/operand/ray.py:RayOperand.y_intercept', 'optiland/optimization/operand/ray.py:RayOperand.L'],
          ['C12'], custom=_bounded_more)(lambda c: None)
+
+
+# concrete inputs found by the defect-hunting sub-agents (bounded replay, see contracts/hunt.py)
+from . import hunt as _hunt  # noqa: E402
+_hunt.register('C12')
